@@ -366,3 +366,9 @@ pub(crate) use {
     module_header::module_header as verif_module_header,
     object_identifier::object_identifier_value as verif_object_identifier_value,
 };
+
+#[cfg(librasn_compiler_verif)]
+#[allow(unused_imports)]
+pub(crate) use {
+    choice::choice as verif_choice, common::asn_tag as verif_asn_tag, set::set as verif_set,
+};
